@@ -68,7 +68,12 @@ def run_contract(params, ch):
     try:
         viol = []
         tr = s.transport
-        tr.connect(T)
+        try:
+            tr.connect(T)
+        except Exception as e:  # pylint: disable=broad-except
+            # the backend of this part is healthy: connect() has no reason to fail (e.g. a claim before the kernel driver was detached is EBUSY)
+            return {'outcome': ('connect-raised', type(e).__name__), 'viol': [{'msg': 'connect() raised %s on a healthy backend (kernel driver active: %r); backend calls %r' % (
+                type(e).__name__, params['kd'], [c[0] for c in w.calls])}], 'nontrivial': tuple(sorted((k, str(v)) for k, v in params.items())), 'sample': dict(params), 'trans': len(w.calls)}
         claims = [c for c in w.calls if c[0] == 'claimInterface']
         if claims != [('claimInterface', 1)]:
             viol.append({'msg': 'connect() issued %r, expected exactly one claimInterface(1)' % (claims,)})
